@@ -597,7 +597,9 @@ def monitor(ops, impl):
                       idle=False, tin=0, tout=0, flags=int(t[3]) if kind == "stub" else 0, memlimit=5000, real=(kind == "real"))
             exp = "%s 0 seq=- abe=- tin=0 tout=0 sup=-" % t[0] if kind == "uninit" else "%s 0 seq=0 abe=0 tin=0 tout=0 sup=%d" % (t[0], mask)
             if comparable(res) != exp:
-                fail("init" if kind != "real" else "supported_per_coder", "initialisation result differs from the documented one: expected '%s'" % exp)
+                only_sup = comparable(res).rsplit(" ", 1)[0] == exp.rsplit(" ", 1)[0]
+                fail("supported_per_coder" if (kind == "real" and only_sup) else "strm_init_resets",
+                     "initialisation result differs from the documented one: expected '%s'" % exp)
             continue
         if st is None:
             fail("machinery", "op before new")
